@@ -77,10 +77,14 @@ def st_expected(st):
     return ['', ' '.join(ws)]
 
 
+TAB_EXTRAS = 0.0       # probability that a continuation line of an extra field is indented with a tab (set by C13: finding F24)
+TAB_INDENT = '\t'
+
+
 def extras(rng):
     out = []
     for n in rng.sample(EXTRA_NAMES, rng.randint(0, 2) if rng.random() < .3 else 0):
-        conts = [' ' + words(rng) for _ in range(rng.randint(0, 2) if rng.random() < .4 else 0)]
+        conts = [(TAB_INDENT if rng.random() < TAB_EXTRAS else ' ') + words(rng) for _ in range(rng.randint(0, 2) if rng.random() < .4 else 0)]
         out.append((n, words(rng), conts))
     return out
 
